@@ -2,7 +2,7 @@
 # usage: lib/trymut.sh <patch.diff> <ID> [tier] — run a check against a scratch worktree of /repo HEAD
 # with the seeded change applied (VERIF_REPO); /repo itself is not touched.
 P="$(realpath "$1")"; ID="$2"; TIER="${3:-quick}"
-WT="/tmp/trymut-$$"
+WT="/var/tmp/verif-trymut-$$"
 git -C /repo worktree add -q --detach "$WT" HEAD || exit 3
 for f in $(git -C /repo status --short | awk '$1=="??"{print $2}' | grep verif_export); do cp "/repo/$f" "$WT/$f"; done
 if ! git -C "$WT" apply "$P" 2>/dev/null; then echo "PATCH DOES NOT APPLY: $P"; git -C /repo worktree remove --force "$WT"; exit 3; fi
